@@ -812,6 +812,11 @@ func (il *inliner) inlineCall(pk *packages.Package, f *ast.File, file string, st
 		}
 	}
 
+	// ---- continuation: `if n... := f(); COND { THEN }` or `n... := f()` followed by `if COND { return ... }`.
+	// The test is repeated at every return of the body (with the returned values bound to the same names) and
+	// dropped after it, so that what is returned is the value of that return and not a join of all of them.
+	cont := il.continuation(pk, ins, call, di, sig, convertDefers, text, typeText)
+
 	il.seq++
 	k := fmt.Sprintf("inl%d_%d", il.pass, il.seq)
 	label := k + "_L"
@@ -841,15 +846,45 @@ func (il *inliner) inlineCall(pk *packages.Package, f *ast.File, file string, st
 			case nres == 0:
 				bodyEdits = append(bodyEdits, textEdit{rs, re, "break " + label, 0})
 			case len(x.Results) == 0:
-				bodyEdits = append(bodyEdits, textEdit{rs, re, "break " + label, 0})
+				if cont != nil {
+					var cb strings.Builder
+					cb.WriteString("{ " + strings.Join(resTemps, ", ") + " = " + strings.Join(resultNames, ", ") + "; { ")
+					for i, n := range cont.names {
+						if n == "_" || n == "" {
+							continue
+						}
+						fmt.Fprintf(&cb, "var %s %s = %s; _ = %s; ", n, cont.types[i], resTemps[i], n)
+					}
+					cb.WriteString(cont.text + " } ; break " + label + " }")
+					bodyEdits = append(bodyEdits, textEdit{rs, re, cb.String(), 0})
+				} else {
+					bodyEdits = append(bodyEdits, textEdit{rs, re, "break " + label, 0})
+				}
 			default:
 				lhs := resTemps
 				if len(resultNames) > 0 {
 					lhs = resultNames // named results are copied to the temporaries after the deferred calls
 				}
+				tailText := " ; break " + label + " }"
+				if cont != nil {
+					var cb strings.Builder
+					cb.WriteString(" ; ")
+					if len(resultNames) > 0 {
+						cb.WriteString(strings.Join(resTemps, ", ") + " = " + strings.Join(resultNames, ", ") + "; ")
+					}
+					cb.WriteString("{ ")
+					for i, n := range cont.names {
+						if n == "_" || n == "" {
+							continue
+						}
+						fmt.Fprintf(&cb, "var %s %s = %s; _ = %s; ", n, cont.types[i], resTemps[i], n)
+					}
+					cb.WriteString(cont.text + " }")
+					tailText = cb.String() + tailText
+				}
 				bodyEdits = append(bodyEdits, textEdit{rs, re, "{ " + strings.Join(lhs, ", ") + " = ", 0})
 				e := ctf.Offset(x.End()) - bodyStart
-				bodyEdits = append(bodyEdits, textEdit{e, e, " ; break " + label + " }", 0})
+				bodyEdits = append(bodyEdits, textEdit{e, e, tailText, 0})
 			}
 		}
 		return true
@@ -959,6 +994,13 @@ func (il *inliner) inlineCall(pk *packages.Package, f *ast.File, file string, st
 	usedStmt[ins.stmt] = true
 	g := il.seq
 	callStart, callEnd := tf.Offset(call.Pos()), tf.Offset(call.End())
+	if cont != nil && cont.p1 {
+		fe.edits = append(fe.edits, textEdit{tf.Offset(ins.stmt.Pos()), tf.Offset(ins.stmt.End()), pre, g})
+		return true
+	}
+	if cont != nil {
+		fe.edits = append(fe.edits, textEdit{tf.Offset(ins.next.Pos()), tf.Offset(ins.next.End()), "", g})
+	}
 	if ins.dropStmt {
 		// an expression statement: the statement is the call
 		fe.edits = append(fe.edits, textEdit{tf.Offset(ins.stmt.Pos()), tf.Offset(ins.stmt.End()), ins.open + pre + ins.close, g})
@@ -1070,6 +1112,167 @@ func (il *inliner) inlineCall(pk *packages.Package, f *ast.File, file string, st
 	return true
 }
 
+// contInfo: the test that consumes the results of an inlined call (see inlineCall).
+type contInfo struct {
+	names []string // the variables the results are bound to, one per result ("_" for none)
+	types []string
+	text  string // `if COND { ... } [else ...]`
+	p1    bool   // the call sits in the Init of the if statement (the whole statement is replaced)
+}
+
+// continuation recognises
+//
+//	P1: if a, b := f(x); COND { THEN } [else { ELSE }]
+//	P2: a, b := f(x)  (or =)  followed by  if COND { ...; return ... }
+//
+// where COND/THEN/ELSE use no name that the callee declares (they are going to be evaluated inside its body),
+// contain no break/continue/goto/label, and in P2 do not assign to a, b.
+func (il *inliner) continuation(pk *packages.Package, ins *insertion, call *ast.CallExpr, di *declInfo, sig *types.Signature, convertDefers bool, text func(ast.Node) string, typeText func(types.Type) string) *contInfo {
+	if convertDefers || ins.literalize || ins.dropStmt || sig.Results().Len() == 0 || ins.open != "" {
+		return nil
+	}
+	info := pk.TypesInfo
+	var as *ast.AssignStmt
+	var ifs *ast.IfStmt
+	ci := &contInfo{}
+	switch s := ins.stmt.(type) {
+	case *ast.IfStmt:
+		a, ok := s.Init.(*ast.AssignStmt)
+		if !ok || a.Tok != token.DEFINE {
+			return nil
+		}
+		as, ifs, ci.p1 = a, s, true
+	case *ast.AssignStmt:
+		nx, ok := ins.next.(*ast.IfStmt)
+		if !ok || nx.Init != nil || nx.Else != nil || len(nx.Body.List) == 0 {
+			return nil
+		}
+		if _, isRet := nx.Body.List[len(nx.Body.List)-1].(*ast.ReturnStmt); !isRet {
+			return nil
+		}
+		as, ifs = s, nx
+	default:
+		return nil
+	}
+	if len(as.Rhs) != 1 || ast.Unparen(as.Rhs[0]) != ast.Expr(call) || len(as.Lhs) != sig.Results().Len() {
+		return nil
+	}
+	bound := map[types.Object]bool{}
+	boundNames := map[string]bool{}
+	for i, l := range as.Lhs {
+		id, ok := l.(*ast.Ident)
+		if !ok {
+			return nil
+		}
+		ci.names = append(ci.names, id.Name)
+		ci.types = append(ci.types, typeText(sig.Results().At(i).Type()))
+		if id.Name == "_" {
+			continue
+		}
+		o := info.Defs[id]
+		if o == nil {
+			o = info.Uses[id]
+		}
+		if o == nil {
+			return nil
+		}
+		// the variable must have the result's type (an assignment to a wider interface variable would change it)
+		if !types.Identical(o.Type(), sig.Results().At(i).Type()) {
+			return nil
+		}
+		bound[o] = true
+		boundNames[id.Name] = true
+	}
+	// names the callee declares
+	declared := map[string]bool{}
+	ast.Inspect(di.decl, func(n ast.Node) bool {
+		if id, ok := n.(*ast.Ident); ok {
+			if di.pk.TypesInfo.Defs[id] != nil {
+				declared[id.Name] = true
+			}
+		}
+		if ls, ok := n.(*ast.LabeledStmt); ok {
+			declared[ls.Label.Name] = true
+		}
+		return true
+	})
+	okk := true
+	usesBound := false
+	parts := []ast.Node{ifs.Cond, ifs.Body}
+	if ifs.Else != nil {
+		parts = append(parts, ifs.Else)
+	}
+	var walk func(n ast.Node)
+	walk = func(n ast.Node) {
+		ast.Inspect(n, func(m ast.Node) bool {
+			switch x := m.(type) {
+			case *ast.BranchStmt, *ast.LabeledStmt, *ast.DeferStmt:
+				okk = false
+			case *ast.SelectorExpr:
+				walk(x.X)
+				return false
+			case *ast.KeyValueExpr:
+				if id, ok := x.Key.(*ast.Ident); ok {
+					if v, isVar := info.Uses[id].(*types.Var); isVar && v.IsField() {
+						walk(x.Value)
+						return false
+					}
+				}
+			case *ast.AssignStmt:
+				if !ci.p1 {
+					for _, l := range x.Lhs {
+						if id, ok := l.(*ast.Ident); ok && bound[info.Uses[id]] {
+							okk = false
+						}
+					}
+				}
+			case *ast.IncDecStmt:
+				if id, ok := x.X.(*ast.Ident); ok && bound[info.Uses[id]] && !ci.p1 {
+					okk = false
+				}
+			case *ast.UnaryExpr:
+				if id, ok := x.X.(*ast.Ident); ok && x.Op == token.AND && bound[info.Uses[id]] {
+					okk = false
+				}
+			case *ast.Ident:
+				o := info.Uses[x]
+				if o == nil {
+					o = info.Defs[x]
+				}
+				if bound[o] {
+					usesBound = true
+					return true
+				}
+				if declared[x.Name] && x.Name != "_" {
+					// a name of the caller that the callee also declares: it would be captured
+					if _, isDef := info.Defs[x]; isDef && info.Defs[x] != nil {
+						// declared inside the continuation itself: harmless unless it shadows a bound name
+						if boundNames[x.Name] {
+							okk = false
+						}
+						return true
+					}
+					okk = false
+				}
+			}
+			return true
+		})
+	}
+	for _, p := range parts {
+		walk(p)
+	}
+	if !okk || !usesBound {
+		return nil
+	}
+	var b strings.Builder
+	b.WriteString("if " + text(ifs.Cond) + " " + text(ifs.Body))
+	if ifs.Else != nil {
+		b.WriteString(" else " + text(ifs.Else))
+	}
+	ci.text = b.String()
+	return ci
+}
+
 type insertion struct {
 	stmt       ast.Stmt  // the statement the call belongs to
 	at         token.Pos // where the pre-text goes
@@ -1077,6 +1280,7 @@ type insertion struct {
 	close      string    // text after the statement
 	dropStmt   bool      // the statement is just the call
 	literalize bool
+	next       ast.Stmt // the statement that follows stmt in its list (nil if none)
 }
 
 // hoistPoint decides whether call can be evaluated in front of its statement without changing the order
@@ -1121,6 +1325,20 @@ func hoistPoint(stack []ast.Node, call *ast.CallExpr, info *types.Info) *inserti
 		}
 	}
 	ins := &insertion{stmt: stmt, at: stmt.Pos()}
+	var list []ast.Stmt
+	switch p := stack[idx-1].(type) {
+	case *ast.BlockStmt:
+		list = p.List
+	case *ast.CaseClause:
+		list = p.Body
+	case *ast.CommClause:
+		list = p.Body
+	}
+	for i, x := range list {
+		if x == stmt && i+1 < len(list) {
+			ins.next = list[i+1]
+		}
+	}
 	if p, ok := stack[idx-1].(*ast.IfStmt); ok && p.Else == stmt {
 		ins.open, ins.close = "{ ", " }"
 	}
